@@ -59,6 +59,7 @@ PROPS = {
         "units": [
             U("c05", "TestBalloonDense", T(40, 8, 300), T(60, 160, 600)),
             U("c05", "TestNodeDense", T(3, 16, 300, shrinktime="60s"), T(5, 128, 900, shrinktime="180s"), needs=["nodeexec"]),
+            U("c05", "TestConcurrentClients", T(4, 16, 300, shrinktime="40s"), T(5, 160, 900, shrinktime="120s"), needs=["nodeexec"]),
             U("c05", "TestClusterDense", T(1, 8, 400, shrinktime="60s"), T(2, 160, 900, shrinktime="180s"), needs=["nodeexec"]),
         ],
     },
